@@ -518,10 +518,11 @@ POSTS = {"id": None, "wrap": lambda r: ("post", r)}
 def split_case(draw):
     cfg = draw(cfgs(FILL_KINDS))
     driver = draw(st.sampled_from(["split_bare", "split_bare", "split_tuple", "split_common", "frseq_run", "split_sibling"]))
-    m = draw(st.integers(0, 16))
+    m = draw(st.sampled_from([0, 1, 2] + list(range(3, 17)) * 2))
     flow = draw(st.lists(st.integers(0, 9), min_size=m, max_size=m))
     case = {"cfg": cfg, "driver": driver, "flow": flow,
-            "s": draw(st.one_of(st.integers(1, 2 * cfg["n"] + 1), st.sampled_from([None, 1000]))),
+            "s": draw(st.one_of(st.integers(1, 2 * cfg["n"] + 1), st.integers(1, 2 * cfg["n"] + 1), st.integers(1, 2 * cfg["n"] + 1),
+                                st.sampled_from([None, 1000]))),
             "copy_buf": draw(st.booleans())}
     if driver == "split_tuple" or driver == "frseq_run":
         case["pre"] = draw(st.sampled_from(sorted(PRES)))
